@@ -34,9 +34,12 @@ StateValuesLabelled(r) ==
 \* marks: values with a registered label only when labels were registered: not required by C13
 
 ThreadName(x) == <<"TH", x[1], x[2]>>
+NPhys(r) == LET e == Expected(r.streams) IN Cardinality({i \in 1..Len(e.crows) : e.crows[i][2] # -1})
 ExpectedRows(r) ==
    LET e == Expected(r.streams) IN
-   IF r.kind = "thread" THEN [i \in 1..Len(e.trows) |-> <<"TH", e.trows[i][1], e.trows[i][2]>>]
+   IF r.kind = "breakdown"      \* one row per physical CPU, named "~CPU n" .. "~CPU 1"
+   THEN [i \in 1..NPhys(r) |-> <<"~CPU", NPhys(r) - i + 1, -1>>]
+   ELSE IF r.kind = "thread" THEN [i \in 1..Len(e.trows) |-> <<"TH", e.trows[i][1], e.trows[i][2]>>]
    ELSE [i \in 1..Len(e.crows) |-> <<IF e.crows[i][2] = -1 THEN "vCPU" ELSE "CPU", e.crows[i][1], e.crows[i][2]>>]
 RowFileMatches(r) ==
    /\ Len(r.rows) = r.nrows
